@@ -301,16 +301,29 @@ def value_bytes(v):
 
 
 def trace_values(trace):
+    """Nondet values in program order: the return-value assignments of kani::any_raw_*. An array shows up as
+    one whole-object assignment and (without formula slicing) once more element by element: keep one form."""
     vals = []
+    whole_seen = set()   # base lhs of whole-array assignments already taken
     for s in trace:
         if s.get("stepType") != "assignment":
             continue
         lhs = s.get("lhs", "")
         fn = s.get("sourceLocation", {}).get("function", "")
-        if lhs.startswith("goto_symex$$return_value") and fn.startswith("kani::any_raw_"):
-            b = value_bytes(s.get("value"))
-            if b is not None:
-                vals.append(b)
+        if not (lhs.startswith("goto_symex$$return_value") and fn.startswith("kani::any_raw_")):
+            continue
+        base = lhs.split("[", 1)[0].split(".", 1)[0]
+        is_part = base != lhs
+        if is_part and base in whole_seen:
+            continue  # element of an array already recorded as a whole
+        b = value_bytes(s.get("value"))
+        if b is None:
+            continue
+        if not is_part and "elements" in (s.get("value") or {}):
+            whole_seen.add(base)
+        elif not is_part:
+            whole_seen.discard(base)  # a fresh scalar call reusing the symbol name
+        vals.append(b)
     return vals
 
 
